@@ -22,8 +22,8 @@ PROPERTY = "C19"
 LEVEL = "model_checking"
 OPTIONS = {"quick": {"max_paths": 20000, "unit_budget_s": 600}, "thorough": {"max_paths": 200000, "unit_budget_s": 1800}}
 BOUNDS = {
-    "quick": {"interleaving": "two sessions x schedules of 2 calls each from a reduced operation set (requests, responses, deliveries, unbind, registrations), all 6 interleavings, ids / result codes / payload symbolic", "registration": "all 8 subsets of the three custom types, symbolic payload octets"},
-    "thorough": {"interleaving": "full operation sets for schedules of 2; reduced set for schedules of 3 vs 1", "registration": "same"},
+    "quick": {"interleaving": "two sessions x schedules of 2 calls each from a reduced operation set (requests, responses, deliveries, unbind, registrations), all 6 interleavings, ids / result codes / payload symbolic", "registration": "all 8 subsets of the three custom types, symbolic payload octets; every history of 3 registrations / deliveries of two custom types of one kind on one session (decode before and after registering, rejected duplicate followed by a valid registration)"},
+    "thorough": {"interleaving": "full operation sets for schedules of 2; reduced set for schedules of 3 vs 1", "registration": "same, histories of 3 and 4"},
 }
 OUTSIDE = ["schedules longer than 3 calls per session", "more than two sessions"]
 ASSUMPTIONS = ["each run uses a freshly loaded copy of the library, so 'alone' really means no other session ever existed in that copy"]
@@ -46,6 +46,15 @@ def units(tier):
                 us.append({"name": f"il_{sa[0]}{sb[0]}_{'+'.join(a)}__{'+'.join(b)}", "shape": {"kind": "il", "sa": sa, "sb": sb, "a": list(a), "b": list(b)}})
     for mask in range(8):
         us.append({"name": f"reg_{mask}", "shape": {"kind": "reg", "mask": mask}})
+    # histories of registrations and deliveries on ONE session: decode before and after
+    # registering, a rejected duplicate followed by a valid registration, two custom types
+    for kind in ("control", "filter", "cred"):
+        for n in ((3,) if quick else (3, 4)):
+            for seq in itertools.product(["regX", "regY", "decX", "decY"], repeat=n):
+                if not any(o.startswith("reg") for o in seq) or not any(o.startswith("dec") for o in seq):
+                    if seq not in (("regX", "regX", "regY"), ("regX", "regY", "regX")):
+                        continue
+                us.append({"name": f"reghist_{kind}_{'+'.join(seq)}", "shape": {"kind": "reghist", "what": kind, "ops": list(seq)}})
     return us
 
 
@@ -179,9 +188,128 @@ def new_session(ctx, side):
     return S.LDAPClient() if side == "client" else S.LDAPServer()
 
 
+def _second_types(L):
+    """a second custom control / filter / credential with ids of their own"""
+    C, F, A, N = L.controls, L.filter, L.auth, L.asn1
+
+    @dataclasses.dataclass(frozen=True)
+    class MyControl2(C.LDAPControl):
+        control_type: str = dataclasses.field(init=False, default="1.2.3.5")
+        value: object = dataclasses.field(init=False, repr=False, default=None)
+        payload: bytes = b""
+
+        def get_value(self, options):
+            return self.payload
+
+        @classmethod
+        def unpack(cls, control_type, critical, value, options):
+            return cls(critical=critical, payload=value or b"")
+
+    @dataclasses.dataclass(frozen=True)
+    class MyFilter2(F.LDAPFilter):
+        filter_id: int = dataclasses.field(init=False, repr=False, default=21)
+        payload: bytes = b""
+
+        def pack(self, writer, options):
+            writer.write_octet_string(self.payload, tag=N.ASN1Tag(N.TagClass.CONTEXT_SPECIFIC, 21, False))
+
+        @classmethod
+        def unpack(cls, reader, options):
+            return cls(payload=reader.read_octet_string(tag=N.ASN1Tag(N.TagClass.CONTEXT_SPECIFIC, 21, False)))
+
+    @dataclasses.dataclass(frozen=True)
+    class MyCred2(A.AuthenticationCredential):
+        auth_id: int = dataclasses.field(init=False, repr=False, default=10)
+        payload: bytes = b""
+
+        def pack(self, writer, options):
+            writer.write_octet_string(self.payload, tag=N.ASN1Tag(N.TagClass.CONTEXT_SPECIFIC, 10, False))
+
+        @classmethod
+        def unpack(cls, reader, options):
+            return cls(payload=reader.read_octet_string(tag=N.ASN1Tag(N.TagClass.CONTEXT_SPECIFIC, 10, False)))
+
+    return MyControl2, MyFilter2, MyCred2
+
+
+def _reghist(ctx, shape):
+    """one server session; the expected outcome of every step comes from a ghost registry"""
+    c = Sub(ctx, ctx.fresh_lib())
+    L = c.L
+    M, S = L.messages, L.session
+    what = shape["what"]
+    i = {"control": 0, "filter": 1, "cred": 2}[what]
+    X, Y = custom_types(L)[i], _second_types(L)[i]
+    srv = S.LDAPServer()
+    reg = {"control": srv.register_control, "filter": srv.register_filter, "cred": srv.register_auth_credential}[what]
+    opts = M.PackingOptions()
+    for T in (X, Y):
+        {"control": opts.control, "filter": opts.filter, "cred": opts.authentication}[what].choices.append(T)
+    registered = set()
+    closed = False
+    for k, op in enumerate(shape["ops"]):
+        T = X if op.endswith("X") else Y
+        tn = op[-1]
+        if op.startswith("reg"):
+            try:
+                ret = reg(T)
+                out = "ok"
+            except ValueError:
+                out = "ValueError"
+            except Exception as e:  # noqa: BLE001
+                ctx.fail("registration-raises-foreign-exception", f"{type(e).__name__}@{exc_site(e)}")
+                return
+            ctx.observe(f"{k}:{op}", out)
+            if tn in registered:
+                ctx.require(out == "ValueError", "duplicate-registration-accepted")
+            else:
+                ctx.require(out == "ok", "valid-registration-rejected-after-this-history")
+                registered.add(tn)
+            continue
+        p = ctx.bytes(f"pl{k}", 1)
+        mid = 10 + k
+        if what == "control":
+            data = M.ExtendedRequest(mid, [T(critical=False, payload=p)], "1.2", None).pack(opts)
+        elif what == "filter":
+            data = M.SearchRequest(mid, [], "", M.SearchScope.BASE, M.DereferencingPolicy.NEVER, 0, 0, False, T(payload=p), []).pack(opts)
+        else:
+            data = M.BindRequest(mid, [], 3, "", T(payload=p)).pack(opts)
+        try:
+            got = srv.receive(data)
+            out = ("ok", got)
+        except Exception as e:  # noqa: BLE001
+            out = ("exc", type(e).__name__, exc_site(e))
+        ctx.observe(f"{k}:{op}", out[0] if out[0] == "ok" else out[:2])
+        if closed:
+            ctx.require(out[0] == "exc" and out[1] == "ProtocolError", "closed-session-accepted-data")
+            continue
+        if what == "cred" and out[0] == "ok":
+            # a bind request was accepted: answer it, so that the next request is legal
+            srv.bind_response(mid)
+            srv.data_to_send()
+        if tn in registered:
+            ctx.require(out[0] == "ok" and len(out[1]) == 1, f"registered-{what}-not-decoded-after-this-history")
+            if out[0] == "ok" and len(out[1]) == 1:
+                msg = out[1][0]
+                obj = {"control": lambda: msg.controls[0], "filter": lambda: msg.filter, "cred": lambda: msg.authentication}[what]()
+                ctx.require(type(obj) is T, f"registered-{what}-decoded-as-other-type-after-this-history")
+                if type(obj) is T:
+                    ctx.require(ctx.eq(obj.payload, p), f"registered-{what}-payload")
+        elif what == "control":
+            ctx.require(out[0] == "ok" and len(out[1]) == 1, "unknown-control-must-decode-as-generic")
+            if out[0] == "ok" and len(out[1]) == 1:
+                ctl = out[1][0].controls[0]
+                ctx.require(type(ctl).__name__ == "LDAPControl", "unregistered-control-decoded-as-custom")
+        else:
+            ctx.require(out[0] == "exc" and out[1] == "ProtocolError", f"unregistered-{what}-accepted")
+            closed = True
+
+
 def body(ctx, shape):
     if shape["kind"] == "reg":
         return _reg(ctx, shape)
+    if shape["kind"] == "reghist":
+        return _reghist(ctx, shape)
     sa, sb, a, b = shape["sa"], shape["sb"], shape["a"], shape["b"]
     # ---- isolated transcripts, each in its own copy of the library
     iso = {}
